@@ -46,6 +46,7 @@ def plan(prop, tier):
                  [corpus("big27.ndjson"), corpus("fixed_findings.ndjson"), corpus("hand.ndjson"),
                   ops("single", ALLF, 480 if q else 4000, 3 if q else 4, 120 if q else 160),
                   ops("single", "lat,frames,lat,fan,tfan", 600 if q else 6000, 3, 120),   # general slopes, boxes overlapping only a little, thinnest wedges
+                  ops("single", "pinch,holefill,pinch,teeth", 600 if q else 6000, 3, 120),   # many rings through one vertex (also as a T-touch on the edge below), nested operands, interlocking operands
                   ops("single", "bigfan23,bigsliver25,bigfan25,bigsliver20", 200 if q else 2000, 3, 120),   # beyond 2^12 (differences <= 2^25, see DESIGN N5): touch-only operands, arithmetic-free laws
                   tri(2, 840, 3 if q else 1, 0)] + ([] if q else [ops("single", EXACT, 600, 6, 260)]))],
         "C02": [("nesting", {"C02"}, "any", "release",
@@ -61,7 +62,7 @@ def plan(prop, tier):
                   ops("single", "tfan,fan,lat", 300 if q else 3000, 3, 120),
                   tri(2, 840, 3 if q else 1, 2)])],
         "C05": [("partition", {"C05"}, "any", "release",
-                 [ops("five", ALLF, 300 if q else 3000, 3 if q else 4, 100 if q else 140)])],
+                 [ops("five", ALLF, 300 if q else 3000, 3 if q else 4, 100 if q else 140), ops("five", "pinch,holefill,pinch,teeth", 400 if q else 4000, 3, 120)])],
         "C06": [("algebra", {"C06"}, "any", "release",
                  [ops("five", ALLF, 200 if q else 2000, 3 if q else 4, 100 if q else 140),
                   ops("five", "teeth", 3000 if q else 20000, 3, 100),     # interlocking operands: cheap sessions, at volume
@@ -69,6 +70,7 @@ def plan(prop, tier):
                   ops("deg", EXACT, 60 if q else 300)])],
         "C07": [("representation", {"C07"}, "any", "release",
                  [ops("repr", ALLF, 120 if q else 1200, 3 if q else 4, 90 if q else 130),
+                  ops("repr", "pinch,holefill,pinch,cxsub", 160 if q else 1600, 3, 120),    # single polygons with (triangular / rectangular) holes: polygon vs one-element multipolygon
                   ops("repr", "bigsliver25,bigfan25,bigsliver20", 90 if q else 900, 3, 90),
                   ops("repr32", "bigsliver20,bigsliver14,bigfan22,bigsliver23", 120 if q else 1200, 3, 90)])],
         "C08": [("transforms", {"C08"}, "any", "release",
@@ -90,13 +92,13 @@ def plan(prop, tier):
                   ops("pure", ALLF, 60 if q else 500, 3, 120), ops("pure", "latraw", 80 if q else 800, 3, 120), ops("repr", EXACT, 20 if q else 100, 3, 90),
                   ops("history", "cx,cxmix,cxshift,aff-cx", 8 if q else 60, 4, 200)])],
         "C03": [("returns-release", {"C03"}, "any", "release",
-                 [("fixtures",), ("rawcorpus", "ttouch.in"), corpus("ulp.ndjson"), corpus("ulp_frames.ndjson"), corpus("fixed_findings.ndjson"), corpus("hand.ndjson"), corpus("fan_f32.ndjson"),
+                 [("fixtures",), ("rawcorpus", "ttouch.in"), corpus("ttouch_int.ndjson"), ops("single", "latraw", 600 if q else 6000, 3, 120), corpus("ulp.ndjson"), corpus("ulp_frames.ndjson"), corpus("fixed_findings.ndjson"), corpus("hand.ndjson"), corpus("fan_f32.ndjson"),
                   ops("single", ALLF, 400 if q else 4000, 3 if q else 5, 140 if q else 240),
                   ops("deg", EXACT, 60 if q else 400), ops("chain", EXACT, 40 if q else 300, 3, 90),
                   tri(2, 840, 5 if q else 1, 3)]),
                 ("returns-debug-assertions", {"C03"}, "any", "dbg",
-                 [("fixtures",), ("rawcorpus", "ttouch.in"), corpus("fixed_findings.ndjson"), corpus("hand.ndjson"),
-                  ops("single", ALLF, 400 if q else 4000, 3 if q else 5, 140 if q else 240),
+                 [("fixtures",), ("rawcorpus", "ttouch.in"), corpus("ttouch_int.ndjson"), corpus("fixed_findings.ndjson"), corpus("hand.ndjson"),
+                  ops("single", ALLF, 400 if q else 4000, 3 if q else 5, 140 if q else 240), ops("single", "latraw", 600 if q else 6000, 3, 120),
                   ops("deg", EXACT, 60 if q else 400), ops("far", EXACT, 40 if q else 300),
                   tri(2, 840, 5 if q else 1, 4)])],
     }
@@ -298,11 +300,13 @@ def run(prop, tier, seed, t0):
         if tier == "quick":
             scs = [("bool:comb:int", 120000, 1024), ("bool:needles:int", 120000, 1024), ("bool:needles:diff", 100000, 1024), ("bool:comb_subject:diff", 20000, 8192), ("bool:steps:union", 100000, 1024), ("bool:steps:xor", 60000, 1024),
                    ("bool:comb:int", 30000, 256), ("bool:needles:int", 30000, 256), ("bool:comb:diff", 30000, 192),
-                   ("bool:grid:union", 2500, 8192), ("bool:grid:xor", 2500, 2048), ("bool:stair:int", 40000, 8192), ("bool:stair:union", 20000, 2048)]
+                   ("bool:grid:union", 2500, 8192), ("bool:grid:xor", 2500, 2048), ("bool:stair:int", 40000, 8192), ("bool:stair:union", 20000, 2048),
+                   ("bool:hub:union", 30000, 1024), ("bool:hub_right:union", 30000, 1024)]
         else:
             scs = [("bool:comb:int", 500000, 8192), ("bool:comb:diff", 250000, 2048), ("bool:needles:int", 300000, 8192), ("bool:needles:diff", 150000, 2048),
                    ("bool:comb_subject:diff", 200000, 8192), ("bool:comb:union", 100000, 8192), ("bool:steps:union", 250000, 8192), ("bool:steps:diff", 250000, 2048), ("bool:grid:union", 40000, 8192), ("bool:grid:xor", 40000, 2048),
-                   ("bool:grid:int", 90000, 8192), ("bool:stair:int", 1000000, 8192), ("bool:stair:union", 1000000, 2048), ("bool:stair:diff", 1000000, 8192)]
+                   ("bool:grid:int", 90000, 8192), ("bool:stair:int", 1000000, 8192), ("bool:stair:union", 1000000, 2048), ("bool:stair:diff", 1000000, 8192),
+                   ("bool:hub:union", 300000, 8192), ("bool:hub_right:xor", 100000, 2048)]
         path = os.path.join(wd, "stack.ndjson")
         checks_splay.scenario(scs, path)
         res2, sfails, _ = checks_splay.validate_stack(path, os.path.join(wd, "trace"), 1 << 30)
